@@ -721,8 +721,10 @@ class TrajectoryStore:
         # As soon as we've added one trajectory to the store, we have fixed the
         # data schema, which we check for each new trajectory.
         if len(self._trajectories) > 0:
+            # (Compared by field set names: the hash of a trajectory depends
+            # on the order in which its field sets were added.)
             proto = next(iter(self._trajectories.values()))
-            if hash(trajectory) != hash(proto):
+            if set(trajectory._fieldsets) != set(proto._fieldsets):
                 raise ValueError(
                     'All trajectories in a TrajectoryStore must have the same '
                     'data fields'
